@@ -48,6 +48,7 @@ func exceptSelfForward(cls ExitClass) ExitClass {
 func runC09(w *World, c *Check) {
 	c.Rule("C09.asrep", "every path of ASRep.Verify to `true, nil` passes the cname, crealm, decrypt, nonce, sname, srealm, address and auth-time-skew checks against the request's fields", 9)
 	c.Rule("C09.tgsrep", "every path of TGSRep.Verify to `true, nil` passes the cname, ticket-realm, nonce, srealm, address-subset and time-skew checks", 7)
+	c.Rule("C09.faithful", "ASRep.Verify and TGSRep.Verify never return (false, nil)", 10)
 	c.Rule("C09.key", "AS reply decrypted with the client's own key for the reply's name/realm/kvno/etype (keytab) or derived from the password with the reply's PA-data, usage 3; TGS reply with the session key that keyed the request, usage 8", 8)
 	c.Rule("C09.exchange", "a reply is returned/cached/followed only after Unmarshal, DecryptEncPart and Verify succeeded against the request that was sent", 12)
 	c.Rule("C09.krberror", "a KRB-ERROR reply surfaces as an error wrapping that KRBError; reply message types are checked (11, 13)", 9)
@@ -311,6 +312,7 @@ func runC09(w *World, c *Check) {
 	}
 	ruleEqualityHelpers(w, c, "C09.equal")
 	_ = fmt.Sprint
+	ruleFalseHasError(w, c, "C09.faithful", "messages.(*ASRep).Verify", "messages.(*TGSRep).Verify")
 }
 
 // condAbout: the branch condition tests the asserted KRBError itself — the assertion's ok, or a
